@@ -38,6 +38,8 @@ def _clauses(lst, default_props=None):
 
 
 class ClassSpec:
+    setup = None        # optional callable(run, st, ref): finishes a freshly materialised symbolic instance
+
     def __init__(self, name, fields, inv, bases, views):
         self.name = name
         self.fields = dict(fields)
@@ -56,6 +58,7 @@ class FnSpec:
         self.modifies = list(kw.get('modifies') or [])
         self.raises = kw.get('raises')          # None: may not raise (beyond declared); list of allowed types
         self.ensures_raises = _clauses(kw.get('ensures_raises'), self.props)
+        self.raises_iff = kw.get('raises_iff')     # the call is rejected exactly when this holds in the pre-state
         self.raises_modifies = list(kw.get('raises_modifies') or [])   # what a rejected call may still have changed
         self.inline = kw.get('inline', False)   # no contract of its own: callers execute the body
         self.trusted = kw.get('trusted', False)  # contract assumed, body not verified (listed in evidence)
@@ -69,8 +72,9 @@ class FnSpec:
         self.public = kw.get('public', False)
 
 
-def klass(name, fields=None, inv=None, bases=None, views=None):
+def klass(name, fields=None, inv=None, bases=None, views=None, setup=None):
     CLASSES[name] = ClassSpec(name, fields or {}, inv or [], bases, views)
+    CLASSES[name].setup = setup
     return CLASSES[name]
 
 
